@@ -286,7 +286,11 @@ Section Opt.
   Definition rep (ce : centry) (c : icell) : Prop :=
     (fst ce = fst c /\ snd ce = Some (snd c)) \/
     (snd ce = None /\ cid_contains (fst ce) (fst c) = true /\ fst ce <> fst c).
-  Definition centry_ok (ce : centry) : Prop := forall es, snd ce = Some es -> forall e, In e es -> in_index e.
+  (** an entry is sound: its edges are index edges, and an entry without index cell properly
+      contains at least one index cell (so it is not a leaf cell and can be split) *)
+  Definition centry_ok (ce : centry) : Prop :=
+    (forall es, snd ce = Some es -> forall e, In e es -> in_index e) /\
+    (snd ce = None -> exists c, In c (x_cells x) /\ rep ce c).
   Definition qrep (en : qentry D) (c : icell) : Prop := rep (q_id en, q_cell en) c.
 
   Variable Vq : Z -> Prop.              (* the cell ids the search may meet (valid cell ids) *)
@@ -294,7 +298,7 @@ Section Opt.
 
   Hypothesis LB : forall ce c e, Vq (fst ce) -> In c (x_cells x) -> rep ce c -> In e (snd c) ->
     less (edist e) (cdist (fst ce)) = false.
-  Hypothesis SplitSound : forall q, Vq q ->
+  Hypothesis SplitSound : forall q, Vq q -> (exists c, In c (x_cells x) /\ rep (q, None) c) ->
     (forall ce, In ce (split_cell x q) -> Vq (fst ce) /\ centry_ok ce) /\
     (forall c, In c (x_cells x) -> rep (q, None) c -> exists ce, In ce (split_cell x q) /\ rep ce c).
   Hypothesis HI_nil : HI [].
@@ -379,7 +383,7 @@ Section Opt.
         destruct es; [contradiction|discriminate].
       - destruct (Nat.ltb (length es) min_edges_to_enqueue) eqn:E1; [|apply enqueue_spec; assumption].
         split; [|split].
-        + apply pedges_Inv; [|exact Iv]. intros e He. eapply Cok; eauto.
+        + apply pedges_Inv; [|exact Iv]. intros e He. eapply (proj1 Cok); eauto.
         + apply pedges_ext.
         + intros c Hc [[_ R]|[R _]] e He; [|congruence].
           rewrite Es in R. injection R as R. left. destruct Iv as (_ & T & _).
@@ -433,12 +437,12 @@ Section Opt.
           - apply X. }
         destruct (q_cell en) as [es|] eqn:Ec.
         + apply Gen.
-          * apply pedges_Inv; [|exact Iv1]. intros e He. eapply Cen; [cbn; reflexivity|exact He].
+          * apply pedges_Inv; [|exact Iv1]. intros e He. eapply (proj1 Cen); [cbn; reflexivity|exact He].
           * apply pedges_ext.
           * intros c Hc [[_ R]|[R _]] e He; cbn in R; [|congruence].
             rewrite Ec in R. injection R as R. left.
             destruct Iv1 as (_ & T1 & _). apply (pedges_done avoid es st1 T1). rewrite R. exact He.
-        + destruct (SplitSound (q_id en) Ven) as [Sok Srep].
+        + destruct (SplitSound (q_id en) Ven (proj2 Cen eq_refl)) as [Sok Srep].
           destruct (poe_fold cons avoid (split_cell x (q_id en)) st1 Sok Iv1) as (Iv2 & X2 & P2).
           apply Gen; [exact Iv2|exact X2|].
           intros c Hc R. unfold qrep in R. rewrite Ec in R.
